@@ -681,7 +681,7 @@ fn now_ms() -> u64 {
 
 #[cfg(kani)]
 #[path = "/verif/harness/rip-kernel/lib.rs"]
-mod verif_kani;
+pub mod verif_kani;
 
 #[cfg(test)]
 mod tests {
